@@ -96,6 +96,8 @@ type run struct {
 	up        bool      // the harness asked for the link to be up (connect / gapconnect without a cut since)
 	streaming bool      // the stream is attached (connect or release succeeded, no cut since)
 	gapPush   bool      // a change was pushed between the last full sync and the stream attachment (D42's schedule)
+	faulty    bool      // the stream endpoint is failing (streamfail ... streamup)
+	faultBase uint64    // messages the standby had received when the fault scenario was set up
 	ghost     io.Closer // an extra stream connection to the active from this host (another, or an earlier, client)
 }
 
@@ -512,6 +514,71 @@ type proxy struct {
 	holdStr bool
 	conns   map[net.Conn]struct{}
 	release chan struct{}
+	// fault point: the stream endpoint fails independently of the snapshot endpoint.  While streamFault is set the
+	// first stream request is answered 503; every later request of the standby (snapshot or stream) is held until
+	// the fault is lifted, so that nothing happens behind the script's back during the standby's back-off.
+	streamFault bool
+	faulted     bool
+	faultRel    chan struct{}
+	reqs        []string // completed requests in order: S<status> snapshot, T<status> stream
+}
+
+// statusWriter records the status of a proxied response as soon as its header is written
+type statusWriter struct {
+	http.ResponseWriter
+	p    *proxy
+	tag  string
+	done bool
+}
+
+func (w *statusWriter) note(code int) {
+	if !w.done {
+		w.done = true
+		w.p.logReq(fmt.Sprintf("%s%d", w.tag, code))
+	}
+}
+func (w *statusWriter) WriteHeader(code int)        { w.note(code); w.ResponseWriter.WriteHeader(code) }
+func (w *statusWriter) Write(b []byte) (int, error) { w.note(200); return w.ResponseWriter.Write(b) }
+func (w *statusWriter) Unwrap() http.ResponseWriter { return w.ResponseWriter }
+
+func (p *proxy) logReq(s string) {
+	p.mu.Lock()
+	p.reqs = append(p.reqs, s)
+	p.mu.Unlock()
+}
+
+func (p *proxy) takeReqs() string {
+	p.mu.Lock()
+	defer p.mu.Unlock()
+	out := "-"
+	if len(p.reqs) > 0 {
+		out = strings.Join(p.reqs, ",")
+	}
+	p.reqs = nil
+	return out
+}
+
+func (p *proxy) sawReq(s string) bool {
+	p.mu.Lock()
+	defer p.mu.Unlock()
+	for _, x := range p.reqs {
+		if x == s {
+			return true
+		}
+	}
+	return false
+}
+
+func (p *proxy) countReq(s string) int {
+	p.mu.Lock()
+	defer p.mu.Unlock()
+	n := 0
+	for _, x := range p.reqs {
+		if x == s {
+			n++
+		}
+	}
+	return n
 }
 
 type trackLn struct {
@@ -542,7 +609,8 @@ func newProxy(backend string) *proxy {
 	if err != nil {
 		panic(err)
 	}
-	p := &proxy{ln: ln, backend: backend, conns: map[net.Conn]struct{}{}, release: make(chan struct{})}
+	p := &proxy{ln: ln, backend: backend, conns: map[net.Conn]struct{}{}, release: make(chan struct{}),
+		faultRel: make(chan struct{})}
 	u, _ := url.Parse("http://" + backend)
 	rp := httputil.NewSingleHostReverseProxy(u)
 	rp.FlushInterval = -1
@@ -556,14 +624,37 @@ func newProxy(backend string) *proxy {
 			if !open {
 				panic(http.ErrAbortHandler)
 			}
-			if hold && strings.HasSuffix(q.URL.Path, "/stream") {
+			isStream := strings.HasSuffix(q.URL.Path, "/stream")
+			tag := "S"
+			if isStream {
+				tag = "T"
+			}
+			p.mu.Lock()
+			fault, faulted, frel := p.streamFault, p.faulted, p.faultRel
+			if fault && isStream && !faulted {
+				p.faulted = true
+			}
+			p.mu.Unlock()
+			if fault && isStream && !faulted {
+				p.logReq("T503")
+				http.Error(w, "stream unavailable", http.StatusServiceUnavailable)
+				return
+			}
+			if fault && faulted {
+				select {
+				case <-frel:
+				case <-q.Context().Done():
+					panic(http.ErrAbortHandler)
+				}
+			}
+			if hold && isStream {
 				select {
 				case <-rel:
 				case <-q.Context().Done():
 					panic(http.ErrAbortHandler)
 				}
 			}
-			rp.ServeHTTP(w, q)
+			rp.ServeHTTP(&statusWriter{ResponseWriter: w, p: p, tag: tag}, q)
 		}),
 		ConnState: func(c net.Conn, st http.ConnState) {
 			if st == http.StateClosed || st == http.StateHijacked {
@@ -586,6 +677,7 @@ func (p *proxy) cut() {
 		c.Close()
 	}
 	p.holdStr = false
+	p.streamFault, p.faulted = false, false
 	p.mu.Unlock()
 }
 
@@ -593,6 +685,23 @@ func (p *proxy) allow(holdStream bool) {
 	p.mu.Lock()
 	p.open = true
 	p.holdStr = holdStream
+	p.mu.Unlock()
+}
+
+// failStream switches the stream fault on; liftFault switches it off and lets the held requests through
+func (p *proxy) failStream() {
+	p.mu.Lock()
+	p.open, p.streamFault, p.faulted = true, true, false
+	p.mu.Unlock()
+}
+
+func (p *proxy) liftFault() {
+	p.mu.Lock()
+	if p.streamFault {
+		p.streamFault, p.faulted = false, false
+		close(p.faultRel)
+		p.faultRel = make(chan struct{})
+	}
 	p.mu.Unlock()
 }
 
@@ -757,13 +866,48 @@ func (r *run) doE2E(f []string) string {
 			if !waitFor(longWait, func() bool { return r.received() >= before+1 }) {
 				return "timeout"
 			}
-			return "ok " + showTable(r.sStore.GetAllSessions())
+			return "ok " + showTable(r.sStore.GetAllSessions()) + " req=" + r.px.takeReqs()
 		}
 		if !r.attached(before + 2) { // full sync + the stream's initial heartbeat
-			return "timeout"
+			return "timeout req=" + r.px.takeReqs()
 		}
 		r.streaming = true
-		return "ok"
+		return "ok req=" + r.px.takeReqs()
+	case "streamfail":
+		// like connect, but the stream endpoint answers 503 while the snapshot endpoint works: the standby's full
+		// sync succeeds, its stream attempt fails, it backs off; its next request is held until `streamup`
+		if r.up {
+			return "already"
+		}
+		before := r.received()
+		r.px.failStream()
+		if r.standby == nil {
+			r.startStandby()
+		}
+		r.up, r.gapPush, r.faulty = true, false, true
+		if !waitFor(longWait, func() bool { return r.received() >= before+1 && r.px.sawReq("T503") }) {
+			return "timeout req=" + r.px.takeReqs()
+		}
+		r.faultBase = r.received()
+		return "ok " + showTable(r.sStore.GetAllSessions()) + " req=" + r.px.takeReqs()
+	case "streamup":
+		// the stream endpoint works again: the standby's own retry (after its back-off) brings the link up
+		if !r.up || !r.faulty {
+			return "none"
+		}
+		r.faulty, r.gapPush = false, false
+		r.px.liftFault()
+		if !waitFor(longWait, func() bool {
+			return r.standby.IsConnected() && r.active.ClientCountForVerif() >= 1 && r.px.sawReq("T200")
+		}) {
+			return "timeout req=" + r.px.takeReqs()
+		}
+		// everything that precedes the stream's messages has been counted: one per snapshot answered, plus the
+		// stream's initial heartbeat (the snapshot count comes from what the proxy saw, not from an assumption)
+		want := r.faultBase + uint64(r.px.countReq("S200")) + 1
+		waitFor(longWait, func() bool { return r.received() >= want })
+		r.streaming = true
+		return "ok req=" + r.px.takeReqs()
 	case "release":
 		if !r.up {
 			return "notconnected"
@@ -774,16 +918,16 @@ func (r *run) doE2E(f []string) string {
 		before := r.received()
 		r.px.releaseStream()
 		if !r.attached(before + 1) { // the stream's initial heartbeat
-			return "timeout"
+			return "timeout req=" + r.px.takeReqs()
 		}
 		r.streaming = true
-		return "ok"
+		return "ok req=" + r.px.takeReqs()
 	case "cut":
 		if !r.up {
 			return "notconnected"
 		}
 		r.px.cut()
-		r.up, r.streaming = false, false
+		r.up, r.streaming, r.faulty = false, false, false
 		// both ends have noticed: the standby left connectToStream, the active unregistered the client channel
 		ghosts := 0
 		if r.ghost != nil {
@@ -859,6 +1003,10 @@ func genE2E(r *rand.Rand, n int, emit func([]string)) {
 	// another client's stream ends after the standby has attached its own
 	emit([]string{"e2e", "add s1 v1", "ghost open", "connect", "ghost close", fmt.Sprintf("add s2 v%d", 1+r.Intn(5)),
 		"update s1 v2", "delete s2", "settle", "active"})
+	// the stream endpoint fails while the snapshot endpoint works; the active changes during the standby's back-off;
+	// the endpoint recovers; quiescence
+	emit([]string{"e2e", "add s1 v1", "streamfail", fmt.Sprintf("add s2 v%d", 1+r.Intn(5)), "delete s1", "settle",
+		"streamup", "settle", "update s2 v6", "settle", "active"})
 	for i := 0; i < n; i++ {
 		ids := 2 + r.Intn(3)
 		seq := []string{"e2e"}
@@ -873,6 +1021,16 @@ func genE2E(r *rand.Rand, n int, emit func([]string)) {
 					up = false
 				} else if r.Intn(4) == 0 {
 					seq = append(seq, "gapconnect", change(ids), "release")
+					up = true
+				} else if r.Intn(3) == 0 {
+					seq = append(seq, "streamfail")
+					for k := r.Intn(3); k > 0; k-- {
+						seq = append(seq, change(ids))
+					}
+					if r.Intn(4) == 0 {
+						seq = append(seq, "settle")
+					}
+					seq = append(seq, "streamup")
 					up = true
 				} else {
 					seq = append(seq, "connect")
